@@ -795,15 +795,20 @@ Proof. intros [->|H]; [apply prefixb_spec; exists []; now rewrite app_nil_r | no
 Lemma sim_rename s t p q : Rsim s t -> wf_op_ord s (Rename p q) = true -> sim_raw s t (Rename p q).
 Proof.
   intros R Hwf. pose proof R as [W T N H Hs]. unfold sim_raw. cbn [m_step_raw p_step].
-  resolve_ord R Hwf Hnt. destruct Hnt as (Hn1 & Hn2 & Hn3).
+  resolve_ord R Hwf Hnt. destruct Hnt as (Hn1 & Hn2).
+  assert (Hco : canon (normalize_path p) /\ canon (normalize_path q)).
+  { cbn [wf_op_ord] in Hwf. apply andb_true_iff in Hwf as [Hn _]. apply andb_true_iff in Hn as [Hn _].
+    apply andb_true_iff in Hn as [Hnp Hnq]. split; now apply canon_normalize. }
+  destruct Hco as [Hco Hcn].
   set (old := normalize_path p) in *. set (new := normalize_path q) in *.
   rewrite Hn1, <- (rel_is_dir s t _ R). change (pparent old) with (par old).
-  destruct (is_dir_at s (par old)) eqn:Hdo; cbn [negb].
-  2:{ destruct (lookup s old) as [f|] eqn:Hl; [assert (X : false = true) by (apply Hn3; congruence); discriminate|].
-      unfold m_rename. fold old. rewrite Hl. split; [exact R | reflexivity]. }
-  rewrite (Hn2 eq_refl).
   destruct (lookup s old) as [f|] eqn:Hl.
-  2:{ destruct (rel_none s t old R Hl) as [Hp _]. rewrite Hp. unfold m_rename. fold old. rewrite Hl. split; [exact R | reflexivity]. }
+  2:{ (* a missing source: nothing changes; ENOTDIR iff its directory is there and the target passes through a regular file *)
+      destruct (rel_none s t old R Hl) as [Hp _]. rewrite Hp, <- (rel_through s t new R).
+      rewrite (m_rename_missing s p q W Hco Hcn Hl). fold old new.
+      destruct (is_dir_at s (par old)); cbn [negb andb]; [|split; [exact R | reflexivity]].
+      destruct (through_file s new); split; try exact R; reflexivity. }
+  destruct Hn2 as [Hdo Hnn]; [congruence|]. rewrite Hdo, Hnn. cbn [negb].
   destruct (rel_node s t old f R Hl) as (fn & fx & _ & Hp & _). rewrite Hp.
   destruct (beqb old new) eqn:Eon.
   { unfold m_rename. fold old new. rewrite Hl, Eon. split; [exact R | reflexivity]. }
